@@ -1101,8 +1101,12 @@ func (c *compiler) evalStatement(node ast.Statement) (interface{}, error) {
 	switch t := node.(type) {
 	case *ast.ExpressionStatement:
 		s, err := c.evalExpression(t.Expression)
-		switch s.(type) {
-		case exitBlockStatment, ast.Printable, template.HTML:
+		if _, ok := s.(exitBlockStatment); ok {
+			return s, err
+		}
+
+		// a code tag contributes nothing to the output; only literal text does
+		if _, ok := t.Expression.(*ast.HTMLLiteral); ok {
 			return s, err
 		}
 
